@@ -134,7 +134,7 @@ def judge(c):
     y, m, d, doy, h, mi, s, _ = civ
     has = lambda x: x in fmt  # noqa: E731
     ymd = has("%F")
-    exp_zone = "%d %d" % c.meta["az"]
+    exp_zone = "%d %d" % tuple(c.meta["az"])
     if " ".join(t[9:11]) != exp_zone:
         res.append(("violation", "strptime(%r, %r): zone (%s), the assumed zone is (%s)" % (got, fmt, " ".join(t[9:11]), exp_zone)))
     want_f = {0: y}
